@@ -8,7 +8,9 @@ from . import common
 MODULE = "StorageModel.Properties.C14"
 THEOREMS = ["next_seek_mix", "enumerates", "exhausted_invalid", "empty_invalid_no_panic", "untagged",
             "untagged_setsym", "seek_forward", "seek_reverse", "seek_setsym", "union_exact", "filtered_exact",
-            "tree_inorder", "slice_exact", "list_is_ordered_set", "allOf_exact", "anyOf_exact", "stacked_exact"]
+            "tree_inorder", "slice_exact", "list_is_ordered_set", "allOf_exact", "anyOf_exact", "stacked_exact",
+            "reopen_setsym", "reopen_empty_invalid", "reopen_stacked", "reopen_subquery_setsym",
+            "reopen_subquery_stacked", "scan_fallback_seek", "reopen_subquery_paged"]
 
 RULE = ("random cursor descriptions (every cursor constructor / provider of the library: raw and typed bolt "
         "cursors forward and reverse through TypedBucket, set index key/value cursors, related-entity, link and "
@@ -18,7 +20,14 @@ RULE = ("random cursor descriptions (every cursor constructor / provider of the 
         "full Next-enumeration and random Next/Seek/SeekToString scripts of length <= 6 (seek targets: the "
         "universe plus values before, between and after), every script both inside the writing transaction and in "
         "a read transaction over the committed data; plus bounded-exhaustive blocks (all scripts up to a length "
-        "over all subsets of a small universe, compared by digest and expanded on a mismatch); non-trivial = the "
+        "over all subsets of a small universe, compared by digest and expanded on a mismatch); plus RE-USED cursor "
+        "objects (R cases): one runtime set symbol (tags / link ids / ref-counted link ids, rows without bucket, "
+        "with an empty bucket, missing entities), one composite set symbol (others.tags, others.name, boss.tags, "
+        "others.things.tags, others.things), the row cursor of one scan (OpenSetCursor and the sub-query scanner of "
+        "OpenSetCursorForQuery, incl. its Seek over a set symbol and the forward-only fallback over a composite "
+        "symbol) and per-call providers (GetRelatedEntitiesCursor, IterateLinks) opened again and again on the rows of "
+        "one store in sequences of 2-5 segments `open row; ops` (random worlds, and on a fixed world every "
+        "two-segment script with <= 2 and <= 1 operations per segment over every pair of rows); non-trivial = the "
         "script has at least one operation and the cursor is valid at some point; distinct = (description, script)")
 
 
@@ -35,6 +44,8 @@ def _desc_kinds(desc):
 def _shape(case):
     f = case.split(" ")
     toks = f[0].split(";") if f[0] != "X" else f[1].split(";")
+    if toks[0] == "R":
+        return "reuse:" + toks[1] + ":" + toks[2]
     if toks[0] == "stacked":
         return "stacked:" + toks[1]
     kinds = _desc_kinds(";".join(toks))
@@ -47,6 +58,11 @@ def nontrivial(case, impl):
     f = case.split(" ")
     if f[0] == "X":
         return ("X", case)
+    if len(f) == 2 and f[0].startswith("R;"):
+        segs = f[1].split("/")
+        if len(segs) > 1 and any(not sg.endswith(":_") for sg in segs) and any(t.startswith("v") for t in impl.split(" ")):
+            return case
+        return None
     if len(f) == 2 and f[1] != "_" and any(t.startswith("v") for t in impl.split(" ")):
         return case
     return None
@@ -83,6 +99,52 @@ def _candidates(case):
         return []
     desc, ops = f
     res = []
+    if desc.startswith("R;"):
+        # drop a segment, drop one operation of a segment (the world stays as generated)
+        segs = [sg.split(":") for sg in ops.split("/")]
+        for i in range(len(segs)):
+            if len(segs) > 1:
+                rest = segs[:i] + segs[i + 1:]
+                res.append(desc + " " + "/".join(k + ":" + o for k, o in rest))
+        for i, (k, o) in enumerate(segs):
+            if o == "_":
+                continue
+            oo = o.split(",")
+            for j in range(len(oo)):
+                r = oo[:j] + oo[j + 1:]
+                ns = segs[:i] + [[k, ",".join(r) if r else "_"]] + segs[i + 1:]
+                res.append(desc + " " + "/".join(a + ":" + b for a, b in ns))
+        # the world: drop a row, empty one field of a row (a candidate whose fixture cannot be built —
+        # a link to a dropped entity — answers `panic "fixture…"` and is not taken)
+        t = desc.split(";")
+        if len(t) == 6:
+            for idx, empties in ((3, ["_", "_", "~", "~"]), (4, ["_", "~"])):
+                rows = [] if t[idx] == "_" else t[idx].split("+")
+                for i in range(len(rows)):
+                    rest = rows[:i] + rows[i + 1:]
+                    nt = t[:idx] + ["+".join(rest) if rest else "_"] + t[idx + 1:]
+                    res.append(";".join(nt) + " " + ops)
+                for i, row in enumerate(rows):
+                    rid, _, fs = row.partition("=")
+                    fl = fs.split("/")
+                    for j in range(min(len(fl), len(empties))):
+                        if fl[j] == empties[j]:
+                            continue
+                        if "." in fl[j]:   # drop one element of a list
+                            els = fl[j].split(".")
+                            for e in range(len(els)):
+                                nf = fl[:j] + [".".join(els[:e] + els[e + 1:])] + fl[j + 1:]
+                                nt = t[:idx] + ["+".join(rows[:i] + [rid + "=" + "/".join(nf)] + rows[i + 1:])] + t[idx + 1:]
+                                res.append(";".join(nt) + " " + ops)
+                        nf = fl[:j] + [empties[j]] + fl[j + 1:]
+                        nt = t[:idx] + ["+".join(rows[:i] + [rid + "=" + "/".join(nf)] + rows[i + 1:])] + t[idx + 1:]
+                        res.append(";".join(nt) + " " + ops)
+            if t[5] != "_":
+                ks = t[5].split(",")
+                for i in range(len(ks)):
+                    rest = ks[:i] + ks[i + 1:]
+                    res.append(";".join(t[:5] + [",".join(rest) if rest else "_"]) + " " + ops)
+        return res
     if desc.startswith("stacked;"):
         # only the script is shrunk (the world of a stacked case stays as generated)
         if ops != "_":
@@ -109,7 +171,7 @@ def _candidates(case):
     return res
 
 
-def shrink(ctx, case, fails, rounds=40, skip=lambda c: False):
+def shrink(ctx, case, fails, rounds=60, skip=lambda c: False):
     """greedy delta debugging; fails(impl, model, spec) -> bool; candidates with skip(case) are not taken"""
     f = case.split(" ")
     if f[0] == "X":
@@ -160,36 +222,41 @@ def expand_block(case):
 
 def run_cases_parallel(ctx, cases_text, timeout=3600):
     """like common.run_cases, but implementation, model and spec run concurrently (the exhaustive
-    blocks of the thorough tier take minutes each way)"""
-    data = cases_text.encode()
-    cmds = [[common.HARNESS, "c14", "exec"], [common.DRIVER], [common.DRIVER, "spec"]]
-    procs = []
-    for cmd in cmds:
-        p = subprocess.Popen(cmd, stdin=subprocess.PIPE, stdout=subprocess.PIPE, stderr=subprocess.STDOUT,
-                             env=dict(os.environ, GOMEMLIMIT="8GiB"))
-        procs.append(p)
+    blocks of the thorough tier take minutes each way); the implementation goes through
+    common.run_impl, so a case on which the library does not return (e.g. a scanner looping over a
+    cursor that never becomes invalid) gets the outcome `hang` and the remaining cases still run"""
     import threading
+    data = cases_text.encode()
+    lines = [l for l in cases_text.split("\n") if l]
     outs = [None] * 3
 
-    def feed(i, p):
-        o, _ = p.communicate(data, timeout=timeout)
-        outs[i] = o.decode("utf-8", "replace")
+    def impl():
+        outs[0] = common.run_impl(ctx, "c14", lines, timeout=timeout)
 
-    ths = [threading.Thread(target=feed, args=(i, p)) for i, p in enumerate(procs)]
+    def drv(i, cmd):
+        p = subprocess.Popen(cmd, stdin=subprocess.PIPE, stdout=subprocess.PIPE, stderr=subprocess.STDOUT)
+        o, _ = p.communicate(data, timeout=timeout)
+        if p.returncode != 0:
+            ctx.log(f"{os.path.basename(cmd[0])} exited {p.returncode}: {o.decode('utf-8', 'replace')[-500:]}")
+        ls = o.decode("utf-8", "replace").split("\n")
+        if ls and ls[-1] == "":
+            ls.pop()
+        outs[i] = ls
+
+    ths = [threading.Thread(target=impl), threading.Thread(target=drv, args=(1, [common.DRIVER])),
+           threading.Thread(target=drv, args=(2, [common.DRIVER, "spec"]))]
     for t in ths:
         t.start()
     for t in ths:
         t.join()
-    for cmd, p, o in zip(cmds, procs, outs):
-        if p.returncode != 0:
-            ctx.log(f"{os.path.basename(cmd[0])} exited {p.returncode}: {(o or '')[-500:]}")
+    impl_l, model_l, spec_l = outs[0] or [], outs[1] or [], outs[2] or []
+    # cases that were not run after repeated hangs take the model's output (neutral)
+    impl_l = [model_l[k] if a == common.SKIPPED and k < len(model_l) else a for k, a in enumerate(impl_l)]
+    return impl_l, model_l, spec_l
 
-    def norm(s):
-        ls = (s or "").split("\n")
-        if ls and ls[-1] == "":
-            ls.pop()
-        return ls
-    return norm(outs[0]), norm(outs[1]), norm(outs[2])
+
+def _stuck(a):
+    return a == "hang" or a.startswith("crash")
 
 
 # ------------------------------------------------------------------------------ the check
@@ -206,6 +273,8 @@ def run(ctx, replay_cases=None):
         "operands of a union are sorted in the union's direction (Desc.WF: both operand cursors and the union use "
         "the same `forward` flag)",
     ]
+    # every C14 case but an exhaustive block of the thorough tier takes micro- to milliseconds
+    os.environ.setdefault("VERIF_CASE_TIMEOUT", "10" if ctx.tier == "quick" else "60")
     with common.Lock():
         common.build_tools(ctx)
         built = common.prove(ctx, MODULE, THEOREMS)
@@ -272,7 +341,25 @@ def run(ctx, replay_cases=None):
             hist["via:" + v] += 1
         if not c.startswith("X "):
             ops = c.split(" ")[1]
-            o = [] if ops == "_" else ops.split(",")
+            if c.startswith("R;"):
+                segs = [sg.split(":")[1] for sg in ops.split("/")]
+                hist["reuse_segments:%d" % len(segs)] += 1
+                o = [x for sg in segs if sg != "_" for x in sg.split(",")]
+                obs = a.split(" ")
+                # a segment that opens on an empty row right after the object was left on an element
+                pos = 0
+                prev_valid = False
+                for sg in segs:
+                    nobs = 1 + (0 if sg == "_" else len(sg.split(",")))
+                    part = obs[pos:pos + nobs]
+                    if part and part[0] == "i" and prev_valid:
+                        hist["reuse:empty-row-after-object-left-on-element"] += 1
+                    if part and part[0].startswith("v") and prev_valid:
+                        hist["reuse:nonempty-row-after-object-left-on-element"] += 1
+                    prev_valid = bool(part) and part[-1].startswith("v")
+                    pos += nobs
+            else:
+                o = [] if ops == "_" else ops.split(",")
             hist["script_len:%d" % len(o)] += 1
             hist["ops:next"] += sum(1 for x in o if x == "n")
             hist["ops:seek"] += sum(1 for x in o if x.startswith("s"))
@@ -313,8 +400,9 @@ def run(ctx, replay_cases=None):
         if common.classify(ctx, MATCHERS, b[0], {"impl": b[1], "model": b[2], "spec": b[3]}) is None:
             unknown.append(b)
     if unknown:
-        c, a, m, s = common.shortest(unknown)
-        if not ctx.replay_mode:
+        # prefer an input on which the implementation returns (a wrong observation) to one on which it hangs
+        c, a, m, s = common.shortest([u for u in unknown if not _stuck(u[1])] or unknown)
+        if not ctx.replay_mode and not _stuck(a):
             known = [MATCHERS[name] for name, _ in common.load_known(ctx.prop) if name in MATCHERS]
             c2 = shrink(ctx, c, lambda ia, im, isp: _spec_norm(ia) != isp,
                         skip=lambda cc: any(mt(cc, {}) for mt in known))
